@@ -425,6 +425,7 @@ class Report:
         for h in self.known_hits:
             print(f"KNOWN-FINDING: property={self.prop} {h['what']}")
         lines = []
+        self.violations.sort(key=lambda v: not v["found_input"])   # concrete failing inputs first
         for i, v in enumerate(self.violations[:5]):
             rp = REPLAYS / f"{self.prop}_{seed()}_{i}.json"
             rp.write_text(json.dumps(jsonable({
